@@ -510,6 +510,10 @@ func drive(t *testing.T, kind, gname string) {
 					rec.KnownHit(id, c)
 					continue
 				}
+				if strings.HasPrefix(err.Error(), "harness:") {
+					// a problem of the check itself: no recorded failing case, the driver reports exit 2 (inconclusive)
+					rt.Fatalf("%v", err)
+				}
 				rec.Fail(c, err)
 				rt.Fatalf("%v", err)
 			}
@@ -557,4 +561,30 @@ func TestKnownClassOfReplays(t *testing.T) {
 			t.Errorf("%s: failing case is in class %q", base, cls)
 		}
 	}
+}
+
+// TestClassify prints the known-finding class of every case file matching VERIF_CLASSIFY_GLOB (triage aid).
+func TestClassify(t *testing.T) {
+	g := os.Getenv("VERIF_CLASSIFY_GLOB")
+	if g == "" {
+		t.Skip("VERIF_CLASSIFY_GLOB not set")
+	}
+	files, _ := filepath.Glob(g)
+	counts := map[string]int{}
+	for _, f := range files {
+		var c Case
+		if err := vstat.LoadReplay(f, &c); err != nil {
+			t.Errorf("%s: %v", f, err)
+			continue
+		}
+		cls := knownClass(c)
+		if _, err := run(c); err == nil {
+			cls = "(passes)"
+		} else if cls == "" {
+			cls = "(unclassified)"
+			t.Logf("unclassified: %s: %s", filepath.Base(f), c.Expr)
+		}
+		counts[cls]++
+	}
+	t.Logf("classes: %v", counts)
 }
